@@ -179,3 +179,43 @@ package simpledb
 //@     invariant [merge-error-kept] called(MergeCompact, 0) && callres(MergeCompact, 0, 0) != nil ==> err != nil
 //@     invariant [close-error-kept] called(SSTableStreamWriter.Close, 1) && callres(SSTableStreamWriter.Close, 1, 0) != nil ==> err != nil
 //@     invariant [result-kept] compactionMetadata == nil || (called(saveCompactionMetadata, 0) && callres(saveCompactionMetadata, 0, 0) == nil)
+
+// ---------------------------------------------------------------------------------------------------
+// The manager's reader list (C06, C01, C08): oldest table first. Table directory names are zero-padded generation
+// numbers, so "age order" is "strictly ascending base name"; rname(r) is the base name of reader r's directory.
+
+//@ spec func rname(r Ref) Str = fbase(rpath(r))
+//@ spec func readersSorted(l Slice) Bool = forall a, b :: 0 <= a && a < b && b < len(l) ==> rname(l[a]) < rname(l[b])
+//@ spec func readersNonNil(l Slice) Bool = forall a :: 0 <= a && a < len(l) ==> l[a] != nil
+
+//@ func indexOfReader
+//@   assumed
+//@   ensures r0 == -1 || (0 <= r0 && r0 < len(slice))
+//@   ensures r0 >= 0 ==> rname(slice[r0]) == p
+//@   ensures r0 == -1 ==> forall i :: 0 <= i && i < len(slice) ==> rname(slice[i]) != p
+//@   modifies nothing
+
+//@ func removeReaderAt
+//@   props C06 C01
+//@   safety on
+//@   requires 0 <= i && i < len(slice)
+//@   ensures [same-array] len(r0) == len(slice) - 1 && arr(r0) == arr(slice) && off(r0) == off(slice)
+//@   ensures [prefix-kept] forall j :: 0 <= j && j < i ==> r0[j] == old(slice[j])
+//@   ensures [suffix-shifted] forall j :: i <= j && j < len(r0) ==> r0[j] == old(slice[j + 1])
+//@   modifies slice[*]
+
+//@ func (*SSTableManager).reflectCompactionResult
+//@   props C06 C01
+//@   replay compaction_cycle
+//@   requires s.databaseLock != nil && s.managerLock != nil && m != nil
+//@   requires [list-in-age-order] readersSorted(s.allSSTableReaders) && readersNonNil(s.allSSTableReaders)
+//@   requires [names-are-base-names] fbase(m.ReplacementPath) == m.ReplacementPath
+//@   ensures [C06,C01:list-stays-in-age-order] r0 == nil ==> readersSorted(s.allSSTableReaders)
+//@   ensures [C06,C01:replacement-present] r0 == nil ==> called(indexOfReader, 1) && callres(indexOfReader, 1, 0) >= 0
+//@   ensures [no-nil-readers] r0 == nil ==> readersNonNil(s.allSSTableReaders)
+//@   loop reflectCompactionResult$1:0
+//@     invariant readersSorted(s.allSSTableReaders)
+//@     invariant readersNonNil(s.allSSTableReaders)
+//@   loop reflectCompactionResult$1:1
+//@     invariant readersSorted(s.allSSTableReaders)
+//@     invariant readersNonNil(s.allSSTableReaders)
